@@ -191,6 +191,14 @@ def gen_plan(rng):
             at = rng.below(len(ops) + 1)
             ops[at:at] = tmpl
 
+        if rng.chance(8):
+            # the root is an empty directory: the entry that names it lives
+            # in its parent, outside
+            plan['empty_root'] = True
+            ops.insert(rng.below(len(ops) + 1),
+                       ['rmdir', rng.choice(['', '.', '/', '/..', '..',
+                                             'a/..', '//', './'])])
+
         plan['ops'] = ops
         plan['version'] = rng.choice([3, 3, 4, 6])
         return plan
@@ -227,6 +235,27 @@ def gen_plan(rng):
             plan['sub'][:rng.below(3)]
         plan['glob'] = rng.choice(['/src/*/*', '/s*/*/*', '/src/*/[a-z]*'])
         plan['sub_flip'] = True
+    elif rng.chance(12):
+        # an entry without a name (or called '.'), as a directory: joined to
+        # the directory being filled it names that directory again, where
+        # the link of the first pass is then met as a file
+        plan['listing'] = [[rng.choice(['x', 'lnk', 'ok']), 'l'],
+                           [rng.choice(['', '', '.', './', '/']), 'd']] + \
+            plan['listing'][:rng.below(3)]
+        plan['sub_flip'] = True
+
+        if rng.chance(50):
+            plan['listing'].reverse()
+
+        if pop == 'get':
+            plan['glob'] = rng.choice([None, None, '/src/*', '/s*/*'])
+
+        if rng.chance(70):
+            # somewhere a file can be written (or one that exists)
+            plan['link_target'] = rng.choice(
+                ['../outside', '../keep.txt', '@OUT@/secret.txt',
+                 '@OUT@/new.txt', '../new.txt'])
+
     return plan
 
 
@@ -352,18 +381,23 @@ def _below_root(path, root):
     return _norm(p[len(r):])
 
 
-def make_tree(base):
+def make_tree(base, empty_root=False):
     root = os.path.join(base, 'root')
     out = os.path.join(base, 'outside')
-    os.makedirs(os.path.join(root, 'a'))
-    os.makedirs(os.path.join(root, 'sub', 'deep'))
     os.makedirs(os.path.join(out, 'dir'))
 
-    for p, data in ((os.path.join(root, 'f.txt'), b'root file\n'),
-                    (os.path.join(root, 'a', 'f.txt'), b'a file\n'),
-                    (os.path.join(out, 'secret.txt'), b'secret\n'),
+    if empty_root:
+        os.makedirs(root)
+    else:
+        os.makedirs(os.path.join(root, 'a'))
+        os.makedirs(os.path.join(root, 'sub', 'deep'))
+
+    for p, data in ([] if empty_root else
+                    [(os.path.join(root, 'f.txt'), b'root file\n'),
+                     (os.path.join(root, 'a', 'f.txt'), b'a file\n')]) + \
+                   [(os.path.join(out, 'secret.txt'), b'secret\n'),
                     (os.path.join(out, 'dir', 'f.txt'), b'outside file\n'),
-                    (os.path.join(base, 'f.txt'), b'sibling\n')):
+                    (os.path.join(base, 'f.txt'), b'sibling\n')]:
         with open(p, 'wb') as f:
             f.write(data)
 
@@ -376,7 +410,7 @@ def subst(s, root, out):
 
 def run_server(world, plan, base):
     sim = world.sim
-    root, out = make_tree(base)
+    root, out = make_tree(base, plan.get('empty_root', False))
     before = fsaudit.snapshot(base)
     res = {'statuses': [], 'error': None}
     ver = plan['version']
@@ -555,6 +589,18 @@ def run_server(world, plan, base):
                                  plan['ops']),
                 sig=history_sig(plan['ops'], 'modified'))
             break
+
+    if not os.path.isdir(root):
+        world.violation(
+            'outside-root-modified', 'the root directory itself is gone: its '
+            'entry was removed from the directory above it; request sequence '
+            '%r' % (plan['ops'],),
+            # (through a link that was moved to where it points outside the
+            # root, a rename can carry the root itself away)
+            sig=history_sig(plan['ops'], 'root-removed'))
+
+    if plan.get('empty_root'):
+        sim.probes['root_empty'] += 1
 
     world.open_gate('done')
     world.run_phase()
